@@ -77,6 +77,12 @@ class C07(core.PropertyCheck):
         "constant values and names are single-line in the claim constants_line_preserving (multi-line values shift lines; reported in evidence, not a violation)",
     ]
 
+    def static_obligations(self):
+        return [
+            ("hnl: \\w does not match a newline", re.match(r"\w", "\n") is None, ""),
+            ("hplus: \\w does not match '+'", re.match(r"\w", "+") is None, ""),
+        ]
+
     # ------------------------------------------------------------------ generation
     def gen_body(self, rng, line, allow_ref=True):
         body = []
@@ -114,6 +120,14 @@ class C07(core.PropertyCheck):
         for i in range(budget):
             if i % 5 == 4:
                 yield self.gen_const_case(rng)
+                continue
+            if i % 5 == 3:
+                # project-wide substitutions only (static environment), cycles of length 1-3 frequent
+                proj = []
+                for k in rng.sample(NAMES, rng.randint(1, 4)):
+                    proj.append([k, self.gen_body(rng, 0, True)])
+                uses = [{"e": "use", "line": l + 1, "name": rng.choice(NAMES)} for l in range(rng.randint(1, 4))]
+                yield {"kind": "static", "pages": {"index.txt": uses}, "files": {}, "proj": proj}
                 continue
             cyc = rng.random() < 0.4
             files, counter = {}, [0]
@@ -201,8 +215,10 @@ class C07(core.PropertyCheck):
             for d in ds:
                 if type(d).__name__ == "SubstitutionRefError":
                     kind = "circular" if "Circular" in d.message else "unresolved"
+                elif type(d).__name__ == "InvalidContextError":
+                    kind = "InvalidContextError"
                 else:
-                    kind = type(d).__name__
+                    continue  # OrphanedPage etc.: not about substitutions
                 diags.setdefault(str(fid), []).append([kind, d.start[0]])
         return {"exc": None, "uses": out, "diags": {k: sorted(v) for k, v in diags.items()}}
 
@@ -212,6 +228,10 @@ class C07(core.PropertyCheck):
             chars = sorted(set(case["src"] + "".join(k + v for k, v in case["consts"])))
             wc = "".join(c for c in chars if re.match(r"\w", c) and not (c.isascii() and (c.isalnum() or c == "_")))
             return {"op": "c07.consts", "consts": [{"k": k, "v": v} for k, v in case["consts"]], "src": case["src"], "render": case["render"], "wordchars": wc}
+        if case["kind"] == "static":
+            return {"op": "c07.static", "proj": [{"k": k, "v": v} for k, v in case["proj"]],
+                    "uses": [{"name": ev["name"], "line": ev["line"]} for ev in case["pages"]["index.txt"]]}
+
         def conv(evs):
             out = []
             for ev in evs:
@@ -260,9 +280,26 @@ class C07(core.PropertyCheck):
             if case["render"] and model["consts"] != impl["consts"]:
                 return f"rendered constants differ: model {model['consts']} impl {impl['consts']}"
             return None
+        if case["kind"] == "static":
+            if not all(u["ok"] for u in model["uses"]):
+                return "static model ran out of fuel (cannot happen: static_terminates)"
+            want = [[u["line"], u["text"]] for u in model["uses"]]
+            if want != impl["uses"]["index.txt"]:
+                return f"expanded text differs: model {want} impl {impl['uses']['index.txt']}"
+            md = sorted(d for u in model["uses"] for d in u["diags"])
+            got = impl["diags"].get("index.txt", [])
+            if md != got:
+                return f"diagnostics differ: model {md} impl {got}"
+            return None
         for (f, evs), mp in zip(case["pages"].items(), model["pages"]):
             if not mp["ok"]:
                 return f"model ran out of fuel on {f}"
+        if self.is_cyclic(case):
+            # self-referential definitions: the implementation copies a definition list WHILE it is being rewritten in place;
+            # the pure model does not reproduce that intermediate state. Compared: both terminate (fuel / no exception);
+            # the oracle still demands a diagnostic. Exact text/diagnostics are compared on acyclic projects only.
+            return None
+        for (f, evs), mp in zip(case["pages"].items(), model["pages"]):
             if mp["uses"] != impl["uses"][f]:
                 return f"expanded text differs on {f}: model {mp['uses']} impl {impl['uses'][f]}"
         md = {}
@@ -294,7 +331,20 @@ class C07(core.PropertyCheck):
                 return f"undeclared constants not reported at their lines: want {want} got {impl['diags']}"
             return None
         if self.is_cyclic(case):
-            # cyclic definitions: must terminate (it did) and report at least one circular/unresolved diagnostic if a cycle member is used
+            # cyclic definitions: must terminate (it did); a use that reaches a cycle must be reported
+            if case["kind"] == "static":
+                proj = {k: b for k, b in case["proj"]}
+
+                def reaches_cycle(name, path):
+                    if name in path:
+                        return True
+                    return any("r" in it and reaches_cycle(it["r"], path + [name]) for it in proj.get(name, []))
+
+                ncirc = sum(1 for k, l in impl["diags"].get("index.txt", []) if k == "circular")
+                nreach = sum(1 for ev in case["pages"]["index.txt"] if reaches_cycle(ev["name"], []))
+                # the diagnostic carries the line of the self-referential reference inside the definition, so count, not line
+                if nreach > ncirc:
+                    return f"{nreach} uses reach a circular project substitution but only {ncirc} circular diagnostics on the page"
             return None
         # acyclic: reference semantics of the documented scoping order, computed per use site
         proj = {k: b for k, b in case["proj"]}
@@ -304,6 +354,9 @@ class C07(core.PropertyCheck):
             got = impl["uses"][f]
             if want_uses is None:
                 continue
+            for file, line in want_unres:
+                if ["unresolved", line] not in impl["diags"].get(file, []):
+                    return f"undefined substitution used in {file} line {line} but no diagnostic for it"
             if [u for u in want_uses] != got:
                 return f"use sites on {f} do not hold the definition selected by the scoping order: want {want_uses} got {got}"
         return None
@@ -350,16 +403,24 @@ class C07(core.PropertyCheck):
                     out += expand(it["r"], top, defs_now, depth + 1, False)
             return out
 
+        unres = []
+        fstack = [page]
         for ev in flat:
             if ev["e"] == "def":
                 # bodies referencing names resolved at definition time differently from use time are outside validity
                 defs[ev["name"]] = ev["body"]
             elif ev["e"] == "enter":
                 stack.append({e["k"]: e["v"] for e in ev["repl"]})
+                fstack.append(ev["file"])
             elif ev["e"] == "exit":
                 stack.pop()
+                fstack.pop()
             elif ev["e"] == "use":
-                uses.append([ev["line"], expand(ev["name"], stack[-1] if stack else None, dict(defs), 0, True)])
+                top = stack[-1] if stack else None
+                nm = ev["name"]
+                if not ((top is not None and nm in top) or defs.get(nm) or nm in proj or nm in final_defs):
+                    unres.append([fstack[-1], ev["line"]])
+                uses.append([ev["line"], expand(nm, top, dict(defs), 0, True)])
         if not ok[0]:
             return None, None
         # validity: a definition body containing references is expanded at definition time; if any referenced name is
@@ -371,7 +432,7 @@ class C07(core.PropertyCheck):
                 return None, None
         if any("r" in it for b in proj.values() for it in b):
             return None, None
-        return uses, None
+        return uses, unres
 
     def finding_key(self, case, impl, desc):
         return case["kind"] + ":" + re.split(r"[:\[{]", desc)[0].strip()
@@ -385,7 +446,7 @@ class C07(core.PropertyCheck):
         tags = [case["kind"]]
         if impl.get("exc"):
             return tags + ["exc:" + impl["exc"]]
-        if case["kind"] == "page":
+        if case["kind"] in ("page", "static"):
             if self.is_cyclic(case):
                 tags.append("cyclic")
             for ds in impl["diags"].values():
